@@ -35,7 +35,8 @@ const INPUTS = {
 }
 const OTHER = Object.assign({}, C.PLUS_ONLY, { localVarPrefix: 'zz', comments: false, chainSourceMap: false, literals: false, telemetryVerbosity: 'OFF' })
 const DEFAULT_VERBOSITY = Object.assign({}, BASE); delete DEFAULT_VERBOSITY.telemetryVerbosity
-const INSTANCES = { R1: BASE, R2: BASE, R3: NOPREFIX, R4: OTHER, R5: DEFAULT_VERBOSITY }
+const EMPTY_PREFIX = Object.assign({}, BASE, { localVarPrefix: '' })
+const INSTANCES = { R1: BASE, R2: BASE, R3: NOPREFIX, R4: OTHER, R5: DEFAULT_VERBOSITY, R6: EMPTY_PREFIX }
 
 function alphabet (tier) {
   const out = []
@@ -47,6 +48,8 @@ function alphabet (tier) {
   out.push('LOG:DEBUG'); out.push('LOG:ERROR')
   // default (INFORMATION) verbosity next to them
   out.push('R5:mod'); out.push('R5:chained')
+  // the empty string as prefix is a prefix like any other (not the random default)
+  out.push('R6:mod'); out.push('R6:long')
   return out
 }
 
@@ -176,6 +179,6 @@ module.exports = {
   check,
   inflight: 4,
   rule: 'leaf = history (sequence of (rewriter instance, input) calls, length <= h, plus each call repeated 25x); each history runs in its own fresh process; non-trivial = every history (each compares >= 1 call with an independent fresh-process reference); distinct by the sequence',
-  explanation: 'breadth-first enumeration of ALL call histories up to length h over a 37-symbol alphabet (modified / not modified / syntax error / cancelled / chained / two map comments / literal-heavy / multi-block inputs on two same-config instances and one default-prefix instance); invariant after every call: result == fresh single call',
+  explanation: 'breadth-first enumeration of ALL call histories up to length h over a 39-symbol alphabet (modified / not modified / syntax error / cancelled / chained / two map comments / literal-heavy / multi-block inputs on two same-config instances and one default-prefix instance); invariant after every call: result == fresh single call',
   assumptions: ['native process stands in for the wasm instance (process-wide statics behave alike)', 'contents under a default (random) prefix are compared after renaming __datadog_[a-z]{6}_ consistently', 'literal lists compared as sets (hash-map order is not part of the result)']
 }
